@@ -33,6 +33,8 @@ struct Dom<int, int>
     return v[i];
   }
   static std::string show(int x) { return std::to_string(x); }
+  static int alias_key() { return 2; }  // key(2) == val(0) == 0
+  static const int &as_key(const int &v) { return v; }
 };
 
 template <>
@@ -51,6 +53,8 @@ struct Dom<std::string, std::string>
     return v[i];
   }
   static std::string show(const std::string &x) { return "'" + (x.size() > 8 ? x.substr(0, 7) + "~" : x) + "'"; }
+  static int alias_key() { return -1;  }  // no value of the alphabet is also a key
+  static const std::string &as_key(const std::string &v) { return v; }
 };
 
 template <class K, class V>
@@ -84,12 +88,13 @@ struct FmSys
       n--;
     }
   };
-  enum Kind { SET, READ, ATSET, ERASE, CLEAR, RESERVE };
+  enum Kind { SET, READ, ATSET, ERASE, CLEAR, RESERVE, ALIAS };
   struct Op
   {
     Kind kind;
     int k, v;
     std::string name, cls;
+    int idx;  // ALIAS: the key argument is a reference to the value stored at this index
   };
   std::vector<Op> ops;
 
@@ -98,14 +103,19 @@ struct FmSys
     // simplest first
     for (int k = 0; k < 3; k++)
       for (int v = 1; v <= 2; v++)
-        ops.push_back(Op{SET, k, v, "S" + std::to_string(k) + std::to_string(v), "operator[] write"});
+        ops.push_back(Op{SET, k, v, "S" + std::to_string(k) + std::to_string(v), "operator[] write", 0});
     for (int k = 0; k < 3; k++)
-      ops.push_back(Op{ERASE, k, 0, "E" + std::to_string(k), "erase"});
+      ops.push_back(Op{ERASE, k, 0, "E" + std::to_string(k), "erase", 0});
     for (int k = 0; k < 3; k++)
-      ops.push_back(Op{READ, k, 0, "R" + std::to_string(k), "operator[] read"});
-    ops.push_back(Op{CLEAR, -1, 0, "X", "clear"});
-    ops.push_back(Op{ATSET, 1, 2, "W1", "at() write"});
-    ops.push_back(Op{RESERVE, -1, 0, "V", "reserve"});
+      ops.push_back(Op{READ, k, 0, "R" + std::to_string(k), "operator[] read", 0});
+    ops.push_back(Op{CLEAR, -1, 0, "X", "clear", 0});
+    ops.push_back(Op{ATSET, 1, 2, "W1", "at() write", 0});
+    ops.push_back(Op{RESERVE, -1, 0, "V", "reserve", 0});
+    // m[m.at_index(i).second] = v: the key argument lives inside the map's own storage (enabled where the
+    // stored value is also a key of the alphabet: the default value 0 is key name 2 of the int domain)
+    if (D::alias_key() >= 0)
+      for (int i = 0; i < 2; i++)
+        ops.push_back(Op{ALIAS, D::alias_key(), 1, "A" + std::to_string(i), "operator[] write, key argument refers into the map", i});
   }
   const char *sysname() const { return D::sysname(); }
   const char *tag() const { return D::tag(); }
@@ -113,7 +123,7 @@ struct FmSys
   int nops() const { return (int)ops.size(); }
   const std::string &opname(int op) const { return ops[op].name; }
   const std::string &opclass(int op) const { return ops[op].cls; }
-  bool enabled(const Model &, int) const { return true; }
+  bool enabled(const Model &m, int op) const { return ops[op].kind != ALIAS || (m.n > ops[op].idx && m.val[ops[op].idx] == 0); }
 
   // the reference map; result: -1 nothing returned, -2 must throw std::out_of_range, else the value name returned
   int apply(Model &m, int op) const
@@ -122,6 +132,7 @@ struct FmSys
     int i = o.k >= 0 ? m.find(o.k) : -1;
     switch (o.kind) {
     case SET:
+    case ALIAS:
       if (i < 0)
         m.append(o.k, o.v);
       else
@@ -317,6 +328,11 @@ struct FmSys
         case SET:
           (*map)[D::key(o.k)] = D::val(o.v);
           break;
+        case ALIAS: {
+          const K &inside = D::as_key(map->at_index(o.idx).second);
+          (*map)[inside] = D::val(o.v);
+          break;
+        }
         case READ:
           got = &(*map)[D::key(o.k)];
           break;
